@@ -141,18 +141,14 @@ H("C08", "tbc_header", "c08_init", timeout=900, oracle_features=["cap128", "q16"
 # C13
 # ------------------------------------------------------------------------------------------------
 P("C13",
-  outside=["strings longer than 24 bytes (thorough) / 17 bytes (quick): only len() is inspected for them, shown for 17..24",
+  outside=["strings longer than 24 bytes: only len() is inspected for them, shown for 17..24",
            "core::str::from_utf8 is replaced by an equivalent byte-loop validator (Unicode table 3-7); core's own validator is not executed"],
   assumptions=["verif_oracle::from_utf8_model has the same accept set as core::str::from_utf8 (validated in selftest)"])
-H("C13", "normalized_string", "c13_accept", timeout=1500, tiers=["quick"],
+H("C13", "normalized_string", "c13_accept", timeout=1800,
   encodes=["NormalizedString::new", "NormalizedString::as_ref"],
-  inputs="bytes [u8;17] any, len <= 17 any, assumed well-formed UTF-8 (every scalar value at every position)",
+  inputs="bytes [u8;24] any, len <= 24 any, assumed well-formed UTF-8 (every scalar value at every position)",
   asserts="Ok <=> 1<=len<=16 and all bytes in 0x20..=0x7E; stored text == input with a-z upper-cased, zero padded; as_ref()==that; StringTooLong <=> len==0 or len>16; else CharacterNotAllowed(first offending scalar); no panic",
-  bounds="all UTF-8 strings of <= 17 bytes; unwind 19", assumes=["from_utf8 stub"])
-H("C13", "normalized_string", "c13_accept_24", timeout=5400, tiers=["thorough"],
-  encodes=["NormalizedString::new", "NormalizedString::as_ref"],
-  inputs="bytes [u8;24] any, len <= 24 any, assumed well-formed UTF-8",
-  asserts="as c13_accept", bounds="all UTF-8 strings of <= 24 bytes; unwind 26", assumes=["from_utf8 stub"])
+  bounds="all UTF-8 strings of <= 24 bytes; unwind 26", assumes=["from_utf8 stub"])
 H("C13", "normalized_string", "c13_constructors", timeout=900,
   encodes=["NormalizedString::from_str", "NormalizedString::from_string", "TryFrom<&str>", "TryFrom<String>"],
   inputs="all UTF-8 strings of <= 4 bytes, plus one 17-byte ASCII string",
@@ -470,17 +466,15 @@ MODULE_NEEDS.update({"": ["normalized_string", "server", "client", "srp_internal
 # ------------------------------------------------------------------------------------------------
 LEMMA_L = "Lemma L (SRP-6 correctness in Z_N, mathematics, assumed): (A*v^u)^b == (B - 3*g^x)^(a + u*x) mod N for A = g^a, B = 3v + g^b, v = g^x; sanity-checked at toy width by z3/cvc5 in selftest"
 LEMMA_M = "Lemma M (assumed): with the built-in group the built-in and the custom M1 functions hash the same message (follows from c03_m1_builtin, c03_m1_custom and PRECALCULATED_XOR_HASH == SHA1(N) xor SHA1([7]), the latter checked natively in selftest)"
-P("C01", outside=["Lemma L beyond the toy bound; num-bigint and SHA-1 being correct", "names and passwords longer than 3 bytes in the quick flow harness (16 in thorough); byte-level behaviour for all lengths is decided in c13_* and c03_*",
+P("C01", outside=["Lemma L beyond the toy bound; num-bigint and SHA-1 being correct", "the flow harness takes normalised credentials; that every spelling normalises identically is c13_case / c13_accept",
                   "the byte-level treatment of S (zero-byte classes, either sign of B - k*v) is decided where it happens: c03_interleave, c03_s_client, c03_s_server, c01_pad_roundtrip"],
   assumptions=[HASH_ASSUME, BIG_ASSUME, RNG_ASSUME, STUB_ASSUME, LEMMA_L, LEMMA_M, "the two documented 'generated public key is invalid' panics are excluded"])
-H("C01", "", "c01_flow", timeout=3600, tiers=["quick"], oracle_features=["cap192", "q32"],
-  encodes=["NormalizedString::new", "SrpVerifier::{from_username_and_password, username, password_verifier, salt, from_database_values, into_proof}", "SrpProof::{server_public_key, salt, into_server}",
+H("C01", "", "c01_flow", timeout=5400, oracle_features=["cap192", "q32"],
+  encodes=["SrpVerifier::{from_username_and_password, username, password_verifier, salt, from_database_values, into_proof}", "SrpProof::{server_public_key, salt, into_server}", "NormalizedString::new (re-import)",
            "PublicKey::from_le_bytes", "SrpClientChallenge::{new, client_public_key, client_proof, verify_server_proof}", "SrpServer::session_key", "SrpClient::session_key", "srp_internal::calculate_session_key"],
-  inputs="name, password (normalised, 1..3 bytes each), salt / b / a (RNG draws): all any",
+  inputs="name, password (normalised, 1..16 bytes each), salt / b / a (RNG draws): all any",
   asserts="register -> export -> re-import -> challenge -> client -> server accepts -> client accepts -> session keys byte-identical and equal to K(S)",
-  bounds="credentials <= 3 bytes; leaves uninterpreted", assumes=[STUB_ASSUME, LEMMA_L, LEMMA_M, RNG_ASSUME])
-H("C01", "", "c01_flow_16", timeout=10800, tiers=["thorough"], oracle_features=["cap192", "q32"],
-  encodes=["as c01_flow"], inputs="as c01_flow with credentials of 1..16 bytes", asserts="as c01_flow", bounds="credentials <= 16 bytes", assumes=[STUB_ASSUME, LEMMA_L, LEMMA_M, RNG_ASSUME])
+  bounds="credentials 1..16 bytes; leaves uninterpreted", assumes=[STUB_ASSUME, LEMMA_L, LEMMA_M, RNG_ASSUME])
 H("C01", "key", "c01_pad_roundtrip", timeout=900, oracle_features=["b4"], encodes=["bigint::Integer::{from_bytes_le, to_padded_32_byte_array_le, to_bytes_le}", "From<Integer> for SKey", "key_bigint!"],
   inputs="any 32 bytes", asserts="all padded conversions are the identity on 32-byte little-endian encodings", bounds="unwind 66", assumes=[BIG_ASSUME])
 H("C01", "normalized_string", "c13_case", timeout=1500, encodes=["NormalizedString::new"], inputs="every accepted string and every case variant",
